@@ -6,7 +6,7 @@ EXPLANATION = (
     "through set_val and forwards raw/index; R2 on every enumerated path of set_val the stored expression has the provenance "
     "FORMAT -> SCALE -> RND(method=self.config.rounding) -> OVF -> CAST* -> STORE (complex: both components); R3 the conversion "
     "factor normalises to ite(raw, 1, 2^n_frac) on all branches; R4 the input normaliser's isinstance ladder covers every carrier "
-    "named in the statement and ends in raise; R5 no item-assignment into a possibly-immutable input container; R6 the value type used for the pre-scale cast never narrows the carrier (arrays typed by type(val.item(0)), float imposed only for None/strings/Decimal/scaled); plus the rounding "
+    "named in the statement and ends in raise; R5 no item-assignment into a possibly-immutable input container; R6 the value type used for the pre-scale cast never narrows the carrier (arrays typed by type(val.item(0)), float imposed only for None/strings/Decimal/scaled); R7 codes re-scaled from another fixed-point object that may be fractional are never given an integer value type before the rounding stage; plus the rounding "
     "table and clamp/wrap selection the stages rely on. Residual (declared, not decided): exactness of binary64/NumPy arithmetic "
     "for particular values, decimal-string parsing via float().")
 ASSUMPTIONS = ["NumPy rounding primitives and np.clip behave as in the lemma table",
